@@ -111,7 +111,9 @@ func (c *Ctx) buildVC(fn *ssa.Function, con *Contract) *Unit {
 					if ex.Ord != 0 && ex.Ord != ord {
 						continue
 					}
+					f.envPos = pos
 					lenv := u.loopEnv(f, rst, fn, -1)
+					f.envPos = token.NoPos
 					for k2, v := range bindPost(vals) {
 						if _, clash := lenv.vars[k2]; !clash || strings.HasPrefix(k2, "ret") || k2 == "result" {
 							lenv.vars[k2] = v
